@@ -369,6 +369,45 @@ func entries() []entry {
 			}
 			return d.Bytes(), err
 		}},
+		{"Handle/source-ends-before-the-announced-length", func(c ctlCase) ([]byte, error) {
+			// not an entry for the reply table: the payload breaks off one byte early, so there is
+			// nothing to answer - no frame may be written, and the handler does not report success
+			d := env.NewDst()
+			if len(c.payload) > 0 {
+				h := ws.Header{Fin: true, OpCode: ws.OpCode(c.op), Length: int64(len(c.payload))}
+				err := wsutil.ControlHandler{Src: bytes.NewReader(c.payload[:len(c.payload)-1]), Dst: d, State: c.st(), DisableSrcCiphering: true}.Handle(h)
+				if err == nil && c.op != 10 {
+					return nil, fmt.Errorf("harness: a %d-byte payload of which %d arrived was handled without error", len(c.payload), len(c.payload)-1)
+				}
+				if len(d.Bytes()) != 0 {
+					return nil, fmt.Errorf("harness: %x sent in reply to a control frame whose payload broke off", d.Bytes())
+				}
+			}
+			// then the frame as it should have been, through the same kind of handler
+			d = env.NewDst()
+			h := ws.Header{Fin: true, OpCode: ws.OpCode(c.op), Length: int64(len(c.payload))}
+			err := wsutil.ControlHandler{Src: bytes.NewReader(c.payload), Dst: d, State: c.st(), DisableSrcCiphering: true}.Handle(h)
+			return d.Bytes(), err
+		}},
+		{"Handle/source-is-the-connection", func(c ctlCase) ([]byte, error) {
+			// "The intentional way to use it is to read the next frame header from the connection ...
+			// and pass it to Handle()": the source is the connection itself, on which the next frame
+			// follows right behind this payload. Handle takes the payload and nothing else.
+			d := env.NewDst()
+			h := ws.Header{Fin: true, OpCode: ws.OpCode(c.op), Length: int64(len(c.payload))}
+			wire := c.payload
+			if c.side == streams.Server {
+				h.Masked, h.Mask = true, srcMask
+				wire = refmodel.XOR(c.payload, srcMask, 0)
+			}
+			next := refmodel.Frame{H: refmodel.Hdr{Fin: true, Op: 1, Masked: c.side == streams.Server, Mask: srcMask}, Payload: []byte("next")}.Wire()
+			src := env.NewSrc(append(append([]byte{}, wire...), next...))
+			err := wsutil.ControlHandler{Src: src, Dst: d, State: c.st()}.Handle(h)
+			if left := src.Remaining(); !bytes.Equal(left, next) {
+				return nil, fmt.Errorf("harness: after Handle (err=%v) the connection stands %d bytes behind the header, the payload has %d", err, src.Off, len(wire))
+			}
+			return d.Bytes(), err
+		}},
 		{"ControlFrameHandler/function-reused-after-other-frames", func(c ctlCase) ([]byte, error) {
 			// one handler function serves the connection for its lifetime: before the frame under test
 			// it has answered a ping, met a ping whose payload broke off after 3 of 5 bytes (nothing
@@ -545,9 +584,24 @@ func main() {
 						}, func() *explore.Fail {
 							d := env.NewDst()
 							d.FailAt, d.Partial, d.Transient, d.Err = 0, 0, true, env.TempErr{IsTimeout: timeout}
+							if timeout && len(c.payload)%2 == 1 {
+								// (for half of the cases the destination is gone for good: a broken pipe)
+								d.Transient, d.Err = false, nil
+							}
 							ret := fe.run(c, d)
 							written := d.Bytes()
 							cls := c.class() + ":" + fe.name
+							if c.op == 8 && len(c.payload) > 0 {
+								// a close frame that is invalid beyond doubt is reported as the protocol error it
+								// is, whether or not the reply could be sent
+								invalid := len(c.payload) == 1
+								if len(c.payload) >= 2 {
+									invalid = refmodel.CloseCodeClass(uint16(c.payload[0])<<8|uint16(c.payload[1])) < 0 || !utf8.Valid(c.payload[2:])
+								}
+								if _, isPE := ret.(ws.ProtocolError); invalid && !isPE {
+									return explore.Failf("invalid-close-not-reported-as-protocol-error-when-the-reply-fails:"+cls, "returned %T %v", ret, ret)
+								}
+							}
 							if len(written) == 0 {
 								if ret == nil {
 									return explore.Failf("reply-lost-silently:"+cls, "the destination refused the reply and the handler returned nil")
